@@ -1,37 +1,65 @@
-"""python3-vt tools/try_equiv.py <refactor.diff> ... : a behaviour-preserving refactoring must leave every check silent
-(no violation, no analysis error). Prints FALSE-ALARM lines otherwise."""
+"""python3-vt tools/try_equiv.py [--jobs N] <refactor.diff> ... : a behaviour-preserving refactoring must leave every check
+silent (no violation, no analysis error). Prints FALSE-ALARM lines otherwise.  Each rule is run once per patch (the rules
+of all properties on one parsed tree); patches are processed in parallel."""
 import os, shutil, subprocess, sys, tempfile
+from concurrent.futures import ProcessPoolExecutor
 sys.path.insert(0, "/verif")
-from sa import props
-from sa.core import Repo, AnalysisError
-from sa.runner import run_rules
-bad_total = 0
-for patch in sys.argv[1:]:
+os.environ.setdefault("OMP_NUM_THREADS", "1")
+
+
+def one(patch):
+    from sa import props
+    from sa.core import Repo, AnalysisError
+    from sa.runner import RULES, Ctx
     d = tempfile.mkdtemp(prefix="eq_")
+    out = []
+    tag = f"{os.path.basename(os.path.dirname(patch))}/{os.path.basename(patch)}"
     try:
         shutil.copytree("/repo/lbfgsb", d + "/lbfgsb")
         r = subprocess.run(["patch", "-p1", "-s", "-d", d, "-i", os.path.abspath(patch)], capture_output=True, text=True)
         if r.returncode != 0:
-            print(patch, "PATCH FAILED", r.stdout[-200:])
-            continue
-        seen = set()
-        n = 0
+            return patch, [f"{patch} PATCH FAILED {r.stdout[-200:]}"], 0
+        try:
+            repo = Repo(d)
+        except AnalysisError as e:
+            return patch, [f"FALSE-ALARM(analysis-error) {tag} ALL {str(e)[:250]}"], 1
+        ctx = Ctx(repo)
+        owners = {}
         for pid, spec in props.PROPS.items():
+            for rn in spec["rules"]:
+                owners.setdefault(rn, pid)
+        n = 0
+        seen = set()
+        for rn in sorted(owners):
             try:
-                obs = run_rules(Repo(d), spec["rules"])
+                obs = RULES[rn]["fn"](ctx)
+                mi = RULES[rn].get("min", 0)
+                if len(obs) < mi and not any(not o.ok for o in obs):
+                    raise AnalysisError(f"rule {rn}: {len(obs)} instances found, {mi} confirmed by hand -- the rule would pass vacuously")
                 for o in obs:
                     if not o.ok and (o.rule, o.line, o.construct) not in seen:
                         seen.add((o.rule, o.line, o.construct))
                         n += 1
-                        print(f"FALSE-ALARM {os.path.basename(os.path.dirname(patch))}/{os.path.basename(patch)} {pid} {o.rule} {o.file}:{o.line} {o.construct[:70]} -> {o.fact[:200]}")
+                        out.append(f"FALSE-ALARM {tag} {owners[rn]} {o.rule} {o.file}:{o.line} {o.construct[:70]} -> {o.fact[:200]}")
             except AnalysisError as e:
-                k = str(e)[:100]
-                if k not in seen:
-                    seen.add(k)
-                    n += 1
-                    print(f"FALSE-ALARM(analysis-error) {os.path.basename(os.path.dirname(patch))}/{os.path.basename(patch)} {pid} {str(e)[:250]}")
-        print(f"{patch}: {'silent' if n == 0 else str(n) + ' alarm(s)'}")
-        bad_total += n
+                n += 1
+                out.append(f"FALSE-ALARM(analysis-error) {tag} {owners[rn]} {rn}: {str(e)[:250]}")
+        return patch, out, n
     finally:
         shutil.rmtree(d, ignore_errors=True)
-sys.exit(1 if bad_total else 0)
+
+
+if __name__ == "__main__":
+    args = sys.argv[1:]
+    jobs = 8
+    if "--jobs" in args:
+        jobs = int(args[args.index("--jobs") + 1])
+        del args[args.index("--jobs"):args.index("--jobs") + 2]
+    bad_total = 0
+    with ProcessPoolExecutor(max_workers=jobs) as ex:
+        for patch, lines, n in ex.map(one, args):
+            for l in lines:
+                print(l)
+            print(f"{patch}: " + (f"{n} alarm(s)" if n else "silent"), flush=True)
+            bad_total += n
+    sys.exit(1 if bad_total else 0)
